@@ -72,11 +72,21 @@ func VExploreKernel(K int) {
 	// one probe
 	tar := <-e.needExplore
 	zzv.Assert("C20.queue.order", tar != nil && tar.target.Hash == 1)
-	fails := zzv.Choose("probe.fails", 2) == 1
+	// 0: success; 1: the request fails (no result); 2: the body breaks off after some samples were
+	// counted: the probe function hands back the partial counts together with the error
+	mode := zzv.Choose("probe.fails", 3)
+	fails := mode != 0
 	scraped, total := zzv.Int64("probe.scraped"), zzv.Int64("probe.total")
 	zzv.Assume(0 <= scraped && scraped <= total && total < 1<<30)
-	if fails {
+	if mode == 1 {
 		probeErr = zzv.Err("connection refused")
+	} else if mode == 2 {
+		zzv.Assume(total >= 1)
+		probeErr = zzv.Err("unexpected EOF")
+		probeResult = scrape.NewStatisticsSeriesResult()
+		probeResult.ScrapedTotal = float64(scraped)
+		probeResult.Total = float64(total)
+		zzv.Cover("explore.failed.partial")
 	} else {
 		probeResult = scrape.NewStatisticsSeriesResult()
 		probeResult.ScrapedTotal = float64(scraped)
